@@ -227,8 +227,8 @@ int32_t jls_twr_open(struct jls_twr_s ** instance, const char * path) {
     memset(self->fsr_entry_size_bits, 0, sizeof(self->fsr_entry_size_bits));
 
     jls_mrb_init(&self->mrb, self->mrb_buffer, MRB_BUFFER_SIZE);
-    self->bk = jls_bkt_initialize(self);
-    if (!self->bk) {
+    // jls_bkt_initialize stores the backend in self->bk before it starts the thread that reads it
+    if (!jls_bkt_initialize(self)) {
         JLS_LOGE("jls_bkt_initialize failed");
         jls_wr_close(wr);
         return JLS_ERROR_NOT_ENOUGH_MEMORY;
